@@ -3,7 +3,7 @@
 //@ tu: libxcm/ctl/ctl.c
 //@ enforce: client_receive
 //@ replace: process_get_attr process_get_all_attr
-//@ defs: -DXV_CTL_SLOT=$SLOT
+//@ defs: -DXV_CTL_SLOT=$SLOT -DXV_CTL_TRACK=0
 //@ props: C14
 //@ expect: postcondition>=8 canary=8
 #include "_unit.h"
